@@ -151,3 +151,9 @@ Proof.
     change (h j (nth j st d)) with ((fun i => h i (nth i st d)) j) at 2.
     rewrite map_nth. now rewrite seq_nth by lia.
 Qed.
+
+Lemma bind_app {A B} (m : M A) (k : A -> M B) ds :
+  bind m k ds = match m ds with Some (a, ds') => k a ds' | None => None end.
+Proof. reflexivity. Qed.
+Lemma ret_app {A} (a : A) ds : ret a ds = Some (a, ds).
+Proof. reflexivity. Qed.
